@@ -117,3 +117,71 @@ def promoted_variants(facts, term):
                         if s.k == "assign" and s.rv.k == "aggregate" and s.rv.agg == "adt":
                             out.append((s.rv.adt_name, s.rv.variant_name))
     return out
+
+
+# ---------------------------------------------------------------- finite evaluation of arithmetic terms
+BITS = {"u8": 8, "u16": 16, "u32": 32, "u64": 64, "usize": 64, "i8": 8, "i16": 16, "i32": 32, "i64": 64, "isize": 64,
+        "bool": 1, "u128": 128, "i128": 128}
+
+
+class Overflow(Exception):
+    pass
+
+
+class NotEvaluable(Exception):
+    pass
+
+
+def eval_term(t, leaf):
+    """Value of an arithmetic term under Rust's checked semantics.  `leaf(t)` gives the value of a non-arithmetic
+    sub-term (or raises NotEvaluable).  Raises Overflow where the compiled code would panic / wrap."""
+    if not isinstance(t, tuple) or not t:
+        raise NotEvaluable(t)
+    h = t[0]
+    if h == "const":
+        if isinstance(t[1], int):
+            return t[1]
+        raise NotEvaluable(t)
+    if h == "cast":
+        v = eval_term(t[2], leaf)
+        bits = BITS.get(t[1])
+        if bits is None:
+            raise NotEvaluable(t)
+        return v & ((1 << bits) - 1)
+    if h in ("Add", "Sub", "Mul", "Shl", "Shr", "BitAnd", "BitOr", "BitXor", "Div", "Rem") and len(t) >= 3:
+        a = eval_term(t[1], leaf)
+        b = eval_term(t[2], leaf)
+        bits = BITS.get(t[3]) if len(t) > 3 else 64
+        if bits is None:
+            raise NotEvaluable(t)
+        m = (1 << bits) - 1
+        if h == "Add":
+            v = a + b
+        elif h == "Sub":
+            v = a - b
+        elif h == "Mul":
+            v = a * b
+        elif h == "Shl":
+            if b >= bits:
+                raise Overflow(t)
+            return (a << b) & m
+        elif h == "Shr":
+            if b >= bits:
+                raise Overflow(t)
+            return a >> b
+        elif h == "BitAnd":
+            return a & b
+        elif h == "BitOr":
+            return a | b
+        elif h == "BitXor":
+            return a ^ b
+        elif h in ("Div", "Rem"):
+            if b == 0:
+                raise Overflow(t)
+            return a // b if h == "Div" else a % b
+        if v < 0 or v > m:
+            raise Overflow(t)
+        return v
+    if h == "call" and t[1].endswith(("::from", "::into")) and len(t[2]) == 1:
+        return eval_term(t[2][0], leaf)
+    return leaf(t)
